@@ -132,7 +132,8 @@ Proof.
     all: try (apply Nat.eqb_eq in Heqb; subst; congruence).
     all: try (apply Nat.eqb_eq in Heqb0; subst; congruence).
   - (* LAsyncBeginResolve *) dasy s t Ea. dlist todo.
-    apply (K_weak g s); auto; cbn; auto. unfold upd. intros; kweak. apply Nat.eqb_eq in Heqb; subst; congruence.
+    apply (K_weak g s); auto; cbn; auto. unfold upd. intros; kweak.
+    all: try (apply Nat.eqb_eq in Heqb; subst; congruence).
   - (* LAsyncResolveDep *) dasy s t Ea.
     apply (K_weak g s); auto; destruct (ex s d); cbn; autorewrite with proj; cbn; rewrite ?ts_qr; auto;
       unfold upd; intros; rewrite ?asy_qr in *; kweak.
@@ -140,7 +141,7 @@ Proof.
     all: try (apply Nat.eqb_eq in Heqb0; subst; congruence).
   - (* LAsyncBeginWait *) dasy s t Ea. dlist todo. destruct err.
     + apply (K_weak g s); auto; cbn; autorewrite with proj; cbn; auto. unfold upd. intros; kweak.
-      apply Nat.eqb_eq in Heqb; subst; congruence.
+      all: try (apply Nat.eqb_eq in Heqb; subst; congruence).
     + destruct HKx as [K1 K2]. split; cbn; [intros Hp dd Hd; apply Hst, K1; auto|].
       intros td Ha. unfold upd in Ha. destruct (Nat.eqb_spec x t).
       * subst. inversion Ha. subst. exists []. split; [reflexivity | intros ? []].
